@@ -41,6 +41,15 @@ def gen_dict(rnd, small=True):
     if std and rnd.random() < 0.3:
         for _ in range(rnd.randint(1, 2)):
             anc.append([reading(2), rnd.choice(std)[1], rnd.choice([{"Affix": "Suffix"}, {"Affix": "Prefix"}, "AuxiliaryVerb", "Counter", {"Particle": "Case"}])])
+    # independent-looking words kept in the ancillary dictionary (formal nouns, adverbs ...): no context lets them head a result
+    if rnd.random() < 0.2:
+        for _ in range(rnd.randint(1, 2)):
+            anc.append([reading(2), rnd.choice(KANJI), rnd.choice([{"Noun": "Common"}, "Adverb", "PreNounAdjectival", {"Noun": "Sahen"}, "Conjunction"])])
+    # two head prefixes of which one is a prefix of the other (お / おお)
+    if rnd.random() < 0.2:
+        r1 = reading(1)
+        anc.append([r1, rnd.choice(KANJI), {"Affix": "Prefix"}])
+        anc.append([r1 + rnd.choice(alpha), rnd.choice(KANJI), {"Affix": "Prefix"}])
     # alphabetic readings (tel, ok): the input may spell them in another case, which is NOT the dictionary reading
     if rnd.random() < 0.2:
         for _ in range(rnd.randint(1, 2)):
@@ -68,6 +77,11 @@ def gen_input(rnd, d, alpha, maxlen=8):
     if rnd.random() < 0.1:
         s += rnd.choice("xy漢ー")       # characters outside every reading
     s = s[:maxlen + 2]
+    if s and rnd.random() < 0.1:
+        # a character no reading contains (punctuation, katakana, digit) in the MIDDLE or at the head: words before it are still offered,
+        # it stays in the candidate as it is (katakana is not hiragana)
+        k = rnd.randrange(len(s) + 1)
+        s = s[:k] + rnd.choice(["、", "。", "デ", "ハ", "ン", "ァ", "ヴ", "7", "Q", "・"]) + s[k:]
     if rnd.random() < 0.12:
         # white space and other characters no reading contains, at either end: they stay in the candidate as they are
         ws = rnd.choice([" ", "\n", "\t", "\u3000", "\r\n", "\u00a0", "A", "１"])
